@@ -167,6 +167,11 @@ Op Gen::primerFor(const Op &op) {
             if (!pr.ints.empty() && pr.ints[0] > 2) pr.ints[0] -= 2;
         }
     } else if (!pr.cells.empty() && pr.loops.empty() && pr.cells.size() <= 2) {
+        // (a primer gets a VALID origin: a disk with k in the hundreds is affordable only on an invalid one)
+        if ((pr.fn == FN_gridDisk || pr.fn == FN_gridDiskDistances || pr.fn == FN_gridDiskUnsafe || pr.fn == FN_gridDiskDistancesUnsafe ||
+             pr.fn == FN_gridDiskDistancesSafe || pr.fn == FN_gridRingUnsafe) &&
+            !pr.ints.empty() && pr.ints[0] > 6)
+            pr.ints[0] = (int64_t)r.range(1, 6);
         H3Index c = pr.cells[0];
         double u = r.unit();
         if (u < 0.4)
